@@ -600,10 +600,16 @@ def check_property(prop, tier, seed):
         observed += st.get("observed", 0)
         twins += st.get("twins", 0)
         divs += st.get("div", 0)
-        families[r["name"]] = {"scripts": st.get("scripts", 0), "ops": st.get("ops", 0), "observed": st.get("observed", 0),
-                               "twins": st.get("twins", 0), "divergences": st.get("div", 0),
-                               "badgen": len(out["badgen"]), "variant": r.get("variant", "hu") + ("+" + r["san"] if r.get("san") else "")}
-        if r["stream"]:
+        fe = families.setdefault(r["name"], {"scripts": 0, "ops": 0, "observed": 0, "twins": 0, "divergences": 0, "badgen": 0, "rounds": 0,
+                                             "variant": r.get("variant", "hu") + ("+" + r["san"] if r.get("san") else "")})
+        fe["scripts"] += st.get("scripts", 0)
+        fe["ops"] += st.get("ops", 0)
+        fe["observed"] += st.get("observed", 0)
+        fe["twins"] += st.get("twins", 0)
+        fe["divergences"] += st.get("div", 0)
+        fe["badgen"] += len(out["badgen"])
+        fe["rounds"] += 1
+        if r["stream"] and r.get("round", 0) == 0:
             cov["samples"].append({"family": r["name"], "script": r["stream"][0][0], "first_ops": r["stream"][0][1][:12]})
         for d in out["driverfail"]:
             violations.append({"kind": "machinery", "detail": "model driver failed: " + d.get("what", ""), "found_input": False})
